@@ -172,7 +172,7 @@ Proof.
 Qed.
 
 Lemma stops_not_quote : forall rest, stops rest -> match rest with [] => True | c :: _ => c <> 34 end.
-Proof. intros [| c rest] H; [exact I |]. cbn in H. destruct (stopc_cases c H) as [-> | [-> | ->]]; lia. Qed.
+Proof. intros [| c rest] H; [exact I |]. cbn in H. destruct (stopc_cases c H) as [-> | [-> | [-> | [-> | ->]]]]; lia. Qed.
 
 Lemma kg_read_str : forall s fuel rest rn inl, stops rest ->
   kg_read E C (S fuel) (34 :: write_str_body C s ++ 34 :: rest) rn inl = Ok (Some (VStr s), rest).
